@@ -286,8 +286,84 @@ def run_shard(spec):
     return res
 
 
+LINGERING_SUB = """
+import os, threading, time
+threading.Thread(target=time.sleep, args=(6.0,)).start()   # non-daemon: the interpreter outlives its connection
+channel.send(os.getpid())
+"""
+
+
+def master_dies_during_terminate(res, delay):
+    """the forwarding process of a via gateway is SIGKILLed while terminate() waits, through it, for a proxied worker that has
+    closed its connection but not exited yet: terminate() still returns (no exception), within its bound, the group is
+    empty and none of this process's own children is left"""
+    import signal
+
+    import execnet
+
+    label = f"via master SIGKILLed {delay}s into terminate(3.0), proxied worker lingering after it closed its connection"
+    group = execnet.Group()
+    pids = []
+    killer = None
+    try:
+        master = group.makegateway("popen//id=master")
+        sub = group.makegateway("popen//via=master//id=sub")
+        other = group.makegateway("popen//id=other")
+        getpid = "import os; channel.send(os.getpid())"
+        pids.append(master.remote_exec(getpid).receive(20))
+        pids.append(other.remote_exec(getpid).receive(20))
+        pids.append(sub.remote_exec(LINGERING_SUB).receive(20))
+        killer = threading.Timer(delay, os.kill, (pids[0], signal.SIGKILL))
+        killer.start()
+        t0 = time.monotonic()
+        raised = None
+        try:
+            group.terminate(timeout=3.0)
+        except BaseException as e:  # noqa
+            raised = e
+        elapsed = time.monotonic() - t0
+        res.count("terminate_with_master_dying_meanwhile")
+        res.case(core.h64("master-dies", delay))
+        if raised is not None:
+            res.violation(f"terminate-raised:master-killed-meanwhile:{type(raised).__name__}", f"{label}: {str(raised)[-200:]}")
+        if len(group):
+            res.violation("group-not-empty-after-terminate:master-killed-meanwhile", f"{label}: {[g.id for g in group]}")
+        if elapsed > 2 * 3.0 + 6:
+            res.violation("terminate-slow:master-killed-meanwhile", f"{label}: {elapsed:.1f}s")
+        if raised is None:
+            # judged like everywhere in this check: the children this process started itself (master, other); the proxied
+            # worker is a child of the dead master, nobody is left who could be asked to kill it
+            deadline = time.monotonic() + 3
+            own = pids[:2]
+            alive = own
+            while time.monotonic() < deadline:
+                alive = [p for p in own if procs.alive(p)]
+                if not alive:
+                    break
+                time.sleep(0.05)
+            if alive:
+                res.violation("child-left-after-terminate:master-killed-meanwhile", f"{label}: {len(alive)} of {len(own)} own children still alive")
+    except BaseException as e:  # noqa
+        res.inconclusive.append(f"{label}: harness: {type(e).__name__}: {str(e)[-300:]}")
+    finally:
+        if killer is not None:
+            killer.cancel()
+        for p in pids:
+            try:
+                os.kill(p, signal.SIGKILL)
+            except OSError:
+                pass
+        try:
+            group.terminate(1.0)
+        except BaseException:  # noqa
+            pass
+
+
+
 def run_failing(spec):
     res = Result()
+    for delay in (0.5, 0.7, 0.9) if spec["reps"] == 1 else (0.3, 0.5, 0.6, 0.7, 0.8, 0.9, 1.2, 2.0):
+        master_dies_during_terminate(res, delay)
     variants = ["dup_explicit", "dup_explicit_python", "explicit_equals_next_auto", "dead_interpreter", "via_dup",
                 "chdir_is_file", "nice_not_a_number", "chdir_missing_parent", "concurrent_auto", "concurrent_auto"]
     late = {"chdir_is_file", "nice_not_a_number", "chdir_missing_parent", "concurrent_auto"}  # judged after the group was terminated
